@@ -8,21 +8,23 @@ MANIFEST = {
             "identifier, or the vw form of an rpx dimension) with C09_tok_rel_not_ident (anything that is not an "
             "identifier/dimension is unchanged: ids, attribute selectors and values, pseudo names, strings, hashes, "
             "numbers); C09_prefix_none_identity, C09_prefix_only_after_dot, C09_prefix_form (exact form, sign comment, "
-            "source-map name) for the class-name writer. The whole-sheet statement (C09_prefix_exact_full: identifier/sign "
-            "sequence = specification) is still REFUTED by the model of the current code, now only by D25 (`@import 'a' "
-            "layer(b.t)` prefixes the layer name); the former witness `.a:not(:is(.b .c))` (D13, repaired) satisfies it "
-            "(Example prefix_exact_former_d13). Each run compares the identifier / "
+            "source-map name) for the class-name writer. C09_class_exact_rule: for EVERY qualified rule (prelude with blocks/functions "
+            "nested to any depth, comments anywhere, any declaration block) the identifier / sign-comment sequence "
+            "written equals the specification's (every `.name` in selector context prefixed and signed, nothing else) "
+            "- induction over both walkers. The whole-sheet statement C09_prefix_exact_full was refuted by D13 and then "
+            "by D25; both are repaired and their witnesses satisfy it (C09_former_witnesses_now_exact); it is now neither "
+            "refuted nor proved as a whole. Each run compares the identifier / "
             "sign-comment sequence of the re-tokenised implementation output with the specification's for every "
             "well-formed generated sheet outside the known classes, for prefixes none/empty/ASCII/non-ASCII/needing escapes.",
-    "note": "NOT proved: that every `.name` of a selector context outside the known classes IS prefixed (positive half, all "
-            "depths) — differential only (spec vs implementation output on each run; sheets of the repaired classes D13 / D14 "
-            "are checked like all others now). Known: D25 (import layer(a.b)).",
-    "technique": "Coq proof by induction over token trees + refutation witness + executable-spec conformance of the "
+    "note": "NOT proved: the whole-sheet composition (rule splitting, at-rule preludes, @import conditions, :host) of the "
+            "per-rule theorem - differential (spec vs implementation output on each run; no known class touches "
+            "identifiers any more: D13 D14 D25 were repaired in /repo).",
+    "technique": "Coq proof by induction over token trees + executable-spec conformance of the "
                  "implementation output",
 }
 
 THEOREMS = ["C09_prefix_nothing_else", "C09_tok_rel_not_ident", "C09_prefix_none_identity", "C09_prefix_only_after_dot",
-            "C09_prefix_form", "C09_prefix_exact_refuted"]
+            "C09_prefix_form", "C09_class_exact_rule", "C09_former_witnesses_now_exact"]
 
 
 def run(res):
